@@ -110,6 +110,23 @@ m("c13-default-before-config", "src/main.rs", "        st_mut.timeouts = cfg.tim
 m("c13-ms-vs-s", "src/context.rs", "        now - last_read > timeout.as_millis() as u64", "        now - last_read > timeout.as_secs()", ["C13"])
 m("c13-double-timeout", "src/context.rs", "        Duration::from_secs(self.props.idle_timeout)", "        Duration::from_secs(self.props.idle_timeout * 2)", ["C13"])
 
+# ---- C14
+m("c14-handshake-holds-lock", "src/common/h11c.rs", "    let mut socket = ctx.write().await.take_client_stream();\n    let request = HttpRequest::read_from(&mut socket).await;\n    let mut ctx_lock = ctx.write().await;\n    ctx_lock.set_client_stream(socket);\n    let request = request?;\n    let socket = ctx_lock.borrow_client_stream().unwrap();", "    let mut ctx_lock = ctx.write().await;\n    let socket = ctx_lock.borrow_client_stream().unwrap();\n    let request = HttpRequest::read_from(socket).await?;", ["C14"])
+m("c14-socks-handshake-under-registry-lock", "src/listeners/socks.rs", "        let request = SocksRequest::read_from(&mut socket, auth_server).await?;", "        let request = {\n            let _guard = state.contexts.alive.lock().await;\n            SocksRequest::read_from(&mut socket, auth_server).await?\n        };", ["C14"])
+m("c14-accept-inline-handshake", "src/listeners/http.rs", "                    tokio::spawn(async move {\n                        let res = match this.create_context(state, source, socket).await {", "                    let _inline = (async move {\n                        let res = match this.create_context(state, source, socket).await {", [])
+# ---- C15
+m("c15-assign-before-resolve", "src/main.rs", "        let connectors = &self.connectors;\n        rules.iter_mut().try_for_each(move |r| {", "        *self.rules.write().await = rules.clone();\n        let connectors = &self.connectors;\n        rules.iter_mut().try_for_each(move |r| {", ["C15"])
+m("c15-clear-then-push", "src/main.rs", "        *self.rules.write().await = rules;\n        Ok(())", "        self.rules.write().await.clear();\n        for r in rules {\n            tokio::task::yield_now().await;\n            self.rules.write().await.push(r);\n        }\n        Ok(())", ["C15"])
+m("c15-unknown-target-is-deny", "src/main.rs", "                Err(err_msg(format!(\"target not found: {}\", r.target_name())))", "                Ok(())", ["C15"])
+m("c15-skip-validate", "src/rules/mod.rs", "            filter.validate()?;", "", ["C15"])
+m("c15-get-rules-reversed", "src/metrics.rs", "handler!(get_rules(state: Extension<Arc<GlobalState>>) -> impl IntoResponse {\n    Json(state.rules().await.clone())", "handler!(get_rules(state: Extension<Arc<GlobalState>>) -> impl IntoResponse {\n    Json(state.rules().await.iter().rev().cloned().collect::<Vec<_>>())", ["C15"])
+# ---- C18
+m("c18-type-unwrap", "src/connectors/mod.rs", "            .ok_or_else(|| err_msg(format!(\"invalid connector type: {:?}\", t)))?,", "            .unwrap(),", ["C18"])
+m("c18-listener-name-unwrap", "src/listeners/mod.rs", "        .ok_or_else(|| err_msg(\"missing listener name\"))?;", "        .unwrap();", ["C18"])
+m("c18-pem-expect", "src/common/tls.rs", "        .ok_or_else(|| err_msg(\"fail to load private key: no pem section found\"))?;", "        .unwrap();", ["C18"])
+m("c18-lb-verify-index", "src/connectors/loadbalance.rs", "        ensure!(!self.connectors.is_empty(), \"connectors must not be empty\");", "        let _first = &self.connectors[0];", ["C18"])
+m("c18-tuple-index-panic", "milu/src/script/stdlib.rs", '                if *index < 0 || *index as usize >= t.len() {\n                    bail!("tuple index out of range: {}", index)\n                }\n                Ok(t.remove(*index as usize))', '                Ok(t.remove(*index as usize))', ["C18"])
+
 def run(name, file, old, new, props):
     path = os.path.join("/repo", file)
     src = open(path).read()
